@@ -1,7 +1,7 @@
 """C04: interpolation of the hull at the grid (_get_interpolation_indices, _interpolate_curve), point-wise for a generic grid index."""
 from ..contracts.interpolation import InterpolateCurve, InterpolationIndices
 from ..contracts.to_simple import SimpleConstraints
-from ..contracts.to_eo import EqualizedOddsCurves, EqualizedOddsEntries, tradeoff_curve_defaults
+from ..contracts.to_eo import EqualizedOddsCurves, EqualizedOddsEntries, EqualizedOddsSelection, tradeoff_curve_defaults
 from ..pyvc import verify
 
 
@@ -18,6 +18,10 @@ def items(rep):
         rep.add_obligation("_tradeoff_curve.default_metrics_are_false_and_true_positive_rate", "_tradeoff_curve", "undecided", "ast", 0.0, "P", detail=repr(ex)[:200])
     return [(EqualizedOddsCurves(), [("flip_setting_not_passed_on", verify.replace_expr("_tradeoff_curve(group, sensitive_feature_value, flip=self.flip)", "_tradeoff_curve(group, sensitive_feature_value)")),
                                      ("curve_of_all_rows_for_every_group", verify.replace_expr("_tradeoff_curve(group, sensitive_feature_value, flip=self.flip)", "_tradeoff_curve(scores, sensitive_feature_value, flip=self.flip)"))]),
+            (EqualizedOddsSelection("accuracy_score"), [("worst_grid_point_selected", verify.replace_expr("objective_values.idxmax()", "objective_values.idxmin()")),
+                                                        ("highest_instead_of_lowest_hull", verify.replace_expr("np.amin(y_values, axis=1)", "np.amax(y_values, axis=1)")),
+                                                        ("class_totals_swapped", verify.replace_expr("n_positive * self._y_min", "n_negative * self._y_min"))]),
+            (EqualizedOddsSelection("balanced_accuracy_score"), [("y_best_from_another_index", verify.replace_expr("self._y_min[i_best_EO]", "self._y_min[0]"))]),
             (InterpolationIndices(), [("searchsorted_left", verify.replace_const("right", "left")),
                                       ("no_decrement_on_equality", verify.replace_expr("indices[1:] - 1", "indices[1:]"))]),
             (InterpolateCurve(), [("p0_p1_swapped", verify.replace_expr("x_values[interpolation_indices + 1] - x_grid", "x_grid - x_values[interpolation_indices]")),
